@@ -183,9 +183,10 @@ theorem step_cur (w w' : State) (e : Ev) (he : e ≠ .install) (h : step w e = s
     · cases ok <;> (simp at h; subst h; rfl)
     · cases h
 
-/-- the system invariant: every registered updater satisfies `Inv`, and the installs it has been
-notified of are exactly those since its registration -/
-def SysInv (s : Watchers.Sys) : Prop := ∀ p ∈ s.ws, Inv p.2 ∧ p.1 + p.2.cur = s.installs
+/-- the system invariant: every updater ever created is on the store's notification list,
+satisfies `Inv`, and the installs it has seen are exactly those since its registration -/
+def SysInv (s : Watchers.Sys) : Prop :=
+  ∀ w ∈ s.ws, w.listed = true ∧ Inv w.st ∧ w.base + w.st.cur = s.installs
 
 theorem sys_inv_init : SysInv Watchers.init := by
   intro p hp; simp [Watchers.init] at hp
@@ -198,17 +199,23 @@ theorem sys_inv_step (s s' : Watchers.Sys) (e : Watchers.Ev) (h : SysInv s)
     intro p hp
     simp only [List.mem_map] at hp
     obtain ⟨q, hq, rfl⟩ := hp
-    have hq' := h q hq
-    refine ⟨inv_step q.2 _ .install hq'.1 rfl, ?_⟩
-    show q.1 + (q.2.cur + 1) = s.installs + 1
-    omega
+    obtain ⟨hl, hi, hb⟩ := h q hq
+    have hst : (if q.listed = true then Watchers.installed q.st else Watchers.missed q.st) = Watchers.installed q.st := by
+      simp [hl]
+    refine ⟨hl, ?_, ?_⟩
+    · show Inv (if q.listed = true then Watchers.installed q.st else Watchers.missed q.st)
+      rw [hst]; exact inv_step q.st _ .install hi rfl
+    · show q.base + (if q.listed = true then Watchers.installed q.st else Watchers.missed q.st).cur = s.installs + 1
+      rw [hst]
+      show q.base + (q.st.cur + 1) = s.installs + 1
+      omega
   | register =>
     simp only [Watchers.step, Option.some.injEq] at hs; subst hs
     intro p hp
     simp only [List.mem_append, List.mem_singleton] at hp
     rcases hp with hp | rfl
     · exact h p hp
-    · exact ⟨inv_init, by simp [Updater.init]⟩
+    · exact ⟨rfl, inv_init, by simp [Updater.init]⟩
   | upd i e =>
     simp only [Watchers.step] at hs
     split at hs
@@ -224,9 +231,10 @@ theorem sys_inv_step (s s' : Watchers.Sys) (e : Watchers.Ev) (h : SysInv s)
           intro q hq
           rcases List.mem_or_eq_of_mem_set hq with hq | rfl
           · exact h q hq
-          · have hp' := h p (List.mem_of_getElem? hp)
-            exact ⟨inv_step p.2 w' e hp'.1 hw, by rw [step_cur p.2 w' e hne hw]; exact hp'.2⟩
+          · obtain ⟨hl, hi, hb⟩ := h p (List.mem_of_getElem? hp)
+            exact ⟨hl, inv_step p.st w' e hi hw, by show p.base + w'.cur = s.installs; rw [step_cur p.st w' e hne hw]; exact hb⟩
   | registerLate r => simp [Watchers.step] at hs
+  | registerStale k => simp [Watchers.step] at hs
 
 theorem sys_inv_run (es : List Watchers.Ev) (s s' : Watchers.Sys) (h : SysInv s)
     (hr : Watchers.run false s es = some s') : SysInv s' := by
@@ -241,18 +249,20 @@ theorem sys_inv_run (es : List Watchers.Ev) (s s' : Watchers.Sys) (h : SysInv s)
 /-- Any number of updaters on one secret, each created at any moment - before, between or
 during installs - and each one's NewUpdater and Gets cut into sub-steps that interleave freely
 with installs and with the other updaters' sub-steps: in every reachable state, every updater
-that is at rest either has a notification pending or its last (re)build read the newest
-install *of the store* (`base + lastRead = installs`), and none has closed its current value
-or closed a value twice. -/
+*ever created* is still on the store's notification list; if it is at rest, either a
+notification is pending for it or its last (re)build read the newest install *of the store*
+(`base + lastRead = installs`); and none has closed its current value or closed a value
+twice. -/
 theorem every_updater_no_lost_update (es : List Watchers.Ev) (s : Watchers.Sys)
-    (hr : Watchers.run false Watchers.init es = some s) (p : Nat × State) (hp : p ∈ s.ws) :
-    (p.2.phase = .idle → p.2.pending = true ∨ p.1 + p.2.lastRead = s.installs) ∧
-    p.2.closed.Nodup ∧ p.2.valueId ∉ p.2.closed := by
-  have hi := sys_inv_run es Watchers.init s sys_inv_init hr p hp
-  refine ⟨fun hidle => ?_, hi.1.2.2.2.2.2.1, hi.1.2.2.2.2.1⟩
-  rcases hi.1.1 hidle with h | h
+    (hr : Watchers.run false Watchers.init es = some s) (w : Watchers.W) (hw : w ∈ s.ws) :
+    w.listed = true ∧
+    (w.st.phase = .idle → w.st.pending = true ∨ w.base + w.st.lastRead = s.installs) ∧
+    w.st.closed.Nodup ∧ w.st.valueId ∉ w.st.closed := by
+  obtain ⟨hl, hi, hb⟩ := sys_inv_run es Watchers.init s sys_inv_init hr w hw
+  refine ⟨hl, fun hidle => ?_, hi.2.2.2.2.2.1, hi.2.2.2.2.1⟩
+  rcases hi.1 hidle with h | h
   · exact Or.inl h
-  · exact Or.inr (by rw [h]; exact hi.2)
+  · exact Or.inr (by rw [h]; exact hb)
 
 /-- non-vacuity: two updaters, the second created between two installs while the first is in
 the middle of a Get; both end up on the store's install 2 (base + valueSrc = 2), the first
@@ -261,7 +271,7 @@ example : ∃ s, Watchers.run false Watchers.init
     [.register, .upd 0 .initRead, .upd 0 .initBuild, .install, .upd 0 .drain, .register, .install,
      .upd 1 .initRead, .upd 0 .readCur, .upd 1 .initBuild, .upd 0 (.build true),
      .upd 1 .drain, .upd 1 .readCur, .upd 1 (.build true)] = some s ∧
-    s.installs = 2 ∧ s.ws.map (fun p => (p.1, p.2.valueSrc, p.2.pending, p.2.phase)) =
+    s.installs = 2 ∧ s.ws.map (fun w => (w.base, w.st.valueSrc, w.st.pending, w.st.phase)) =
       [(0, 2, true, .idle), (1, 1, false, .idle)] := by
   refine ⟨_, rfl, ?_⟩; decide
 
@@ -269,9 +279,20 @@ example : ∃ s, Watchers.run false Watchers.init
 the store's list only after its initial bytes were read (`registerLate`) misses an install that
 falls in between - it is at rest with nothing pending and a value built from old bytes. -/
 theorem late_registration_loses_update :
-    ∃ es s p, Watchers.run true Watchers.init es = some s ∧ p ∈ s.ws ∧ p.2.phase = .idle ∧
-      p.2.pending = false ∧ p.1 + p.2.lastRead ≠ s.installs :=
+    ∃ es s w, Watchers.run true Watchers.init es = some s ∧ w ∈ s.ws ∧ w.st.phase = .idle ∧
+      w.st.pending = false ∧ w.base + w.st.lastRead ≠ s.installs :=
   ⟨[.install, .registerLate 0, .upd 0 .initBuild], _, _, rfl, List.mem_singleton.mpr rfl, by decide, by decide, by decide⟩
+
+/-- ...and so is appending to the list *as it is at that moment*: if the new list is computed
+from a copy taken earlier (two NewUpdater calls on a name that has to be looked up, each
+giving up the lock for the lookup), the updater registered in between drops off the list; an
+install later it is at rest, nothing is pending, and its value is built from old bytes - for
+good. -/
+theorem stale_list_loses_updater :
+    ∃ es s w, Watchers.run true Watchers.init es = some s ∧ w ∈ s.ws ∧ w.listed = false ∧
+      w.st.phase = .idle ∧ w.st.pending = false ∧ w.base + w.st.lastRead ≠ s.installs :=
+  ⟨[.register, .registerStale 0, .upd 0 .initRead, .upd 0 .initBuild, .upd 1 .initRead, .upd 1 .initBuild, .install],
+   _, _, rfl, List.mem_cons_self, by decide, by decide, by decide, by decide⟩
 
 /-- T1: `Updater.Get` is one critical section - lock, deferred unlock, and the channel check,
 the read of the secret and the builder all run inside it, in that order, with no unlock in
@@ -297,6 +318,8 @@ def onlyUnderLock (tok : String) : List String → List Bool → Bool
 /-- T1, the atomic steps of `Watchers.step` are the code's critical sections and orders:
 * NewUpdater obtains its watcher (registration) before it reads the initial bytes, and builds
   last - the model's `register`, `initRead`, `initBuild`, never `registerLate`;
+* the one place that registers appends to the list as it is in that very statement
+  (`register`; the extractor writes `register-stale` for anything else) - never `registerStale`;
 * the watcher is appended to the store's list, a new value is installed, and watchers are
   notified only while the store's lock is held - nowhere else in the client - and
   applyUpdates installs then notifies inside one critical section (`install` is one step). -/
@@ -305,6 +328,7 @@ theorem fact_watch_order :
     Facts.storeLockTokens.all (fun f => onlyUnderLock "register" f.2 [false] &&
       onlyUnderLock "install" f.2 [false] && onlyUnderLock "notify" f.2 [false]) = true ∧
     (Facts.storeLockTokens.filter fun f => f.2.contains "register").map (·.1) = ["Store.lookupWatcher"] ∧
+    Facts.storeLockTokens.all (fun f => !f.2.contains "register-stale") = true ∧
     Facts.storeLockTokens.lookup "Store.applyUpdates" =
       some ["lock:active", "defer-unlock:active", "install", "notify", "flush"] := by
   decide
